@@ -268,6 +268,124 @@ def task_cb_coverage(seed):
     return out
 
 
+def calcule_base_script(tag, ptag, ctx, hy, p0, p1, p2, v1, v2, v3, origin, after, cex_builder=None, nice=None):
+    """Staged proof of the calcule_base contract on one path of the real code.
+    Steps marked optional are strategies: whichever succeeds is recorded, every
+    recorded step is a discharged obligation, nothing is assumed."""
+    cl = k_aux.calcule_base_post(p0, p1, p2, v1, v2, v3, origin, after[0], after[1], after[2], True)
+    groups = {}
+    for c_ in cl:
+        groups.setdefault(c_.name.split("[")[0], []).append(c_)
+    pr = Proof(tag, hy, cex_builder=cex_builder, nice=nice, timeout_ms=20000)
+    frame = []
+    for gname, ks in groups.items():
+        if gname == "v3_normal_p0p1":
+            continue
+        nm = f"ensures.{gname}/{ptag}"
+        eq_only = all(k_.rel == "eq" for k_ in ks)
+        pr.have(nm, spec.conj(ks), backends=("z3", "gb") if eq_only else ("z3", "nlsat"))
+        if gname.startswith(("unit", "orth", "right")):
+            frame.append(nm)
+    e = spec.sub(p1, p0)
+    d = spec.sub(p2, p0)
+    dxe = spec.cross(d, e)
+    c = spec.cross(v1, e)                      # the un-normalised normal the code computes
+    r1 = S.find_sqrt(ctx, spec.norm2(d))       # |p2-p0|
+    n3 = S.find_sqrt(ctx, spec.norm2(c), hy)   # |v1 x e|
+    ne = S.find_sqrt(ctx, spec.norm2(e))       # |p1-p0|
+    k_norm = groups["v3_normal_p0p1"][0]
+    guard, gcl = k_aux.calcule_base_generic(p0, p1, p2, v3, True)
+    g_par = spec.conj([x for x in gcl if x.name.startswith("generic_v3_parallel")])
+    g_dir = [x for x in gcl if x.name == "generic_v3_direction"][0].z3()
+    n_norm, n_par, n_dir = (f"ensures.v3_normal_p0p1/{ptag}", f"ensures.generic_v3_parallel/{ptag}",
+                            f"ensures.generic_v3_direction/{ptag}")
+    done = set()
+    have_internals = r1 is not None and n3 is not None and ne is not None
+    # ---- strategy G (generic branch): v3 = (v1 x e)/|v1 x e|
+    strat_g = pr.have(f"lemma.v3_dot_e_zero/{ptag}", spec.dot(v3, e) == 0, backends=("gb",), optional=True)
+    if strat_g:
+        if pr.have(n_norm, k_norm.z3(), by=[], use=[f"lemma.v3_dot_e_zero/{ptag}"], backends=("z3",), optional=True):
+            done.add(n_norm)
+    if strat_g and pr.have(f"lemma.v3_parallel_dxe/{ptag}", g_par, backends=("gb",), optional=True):
+        if pr.have(n_par, z3.Implies(guard.z3(), g_par), by=[], use=[f"lemma.v3_parallel_dxe/{ptag}"],
+                   backends=("z3",), optional=True):
+            done.add(n_par)
+    G = z3.Real("ghost_v3_dot_dxe")
+    gdef = G == spec.dot(v3, dxe)
+    prg = Proof(tag, hy + [gdef], cex_builder=cex_builder, nice=nice, timeout_ms=20000)
+    prg.facts.update(pr.facts)
+    if strat_g and have_internals and prg.have(f"lemma.v3_dot_dxe/{ptag}", G == r1 * n3, backends=("gb",), optional=True):
+        prg.have(f"lemma.r1_pos/{ptag}", r1 > 0, backends=("z3",), timeout_ms=5000, optional=True)
+        prg.have(f"lemma.ne_nonneg/{ptag}", ne >= 0, backends=("z3",), timeout_ms=5000, optional=True)
+        prg.have(f"lemma.n3_pos/{ptag}", n3 > 0, by=list(ctx.pc), use=[f"lemma.ne_nonneg/{ptag}"],
+                 backends=("z3",), timeout_ms=5000, optional=True)
+        if prg.have(f"lemma.G_pos/{ptag}", G > 0, by=[],
+                    use=[f"lemma.v3_dot_dxe/{ptag}", f"lemma.r1_pos/{ptag}", f"lemma.n3_pos/{ptag}"],
+                    backends=("z3", "nlsat"), timeout_ms=10000, optional=True):
+            if prg.have(n_dir, z3.Implies(guard.z3(), g_dir), by=[gdef], use=[f"lemma.G_pos/{ptag}"],
+                        backends=("z3",), timeout_ms=10000, optional=True):
+                done.add(n_dir)
+    pr.obs += prg.obs
+    # ---- strategy C (collinear-within-tolerance branch): |v1 x e| <= k |e| with k <= tolerances
+    if have_internals and len(done) < 3:
+        a_, b_ = z3.Real("ghost_v2e"), z3.Real("ghost_v3e")
+        N = z3.Real("ghost_n3sq")
+        gdefs = [a_ == spec.dot(v2, e), b_ == spec.dot(v3, e), N == spec.norm2(c)]
+        pr2 = Proof(tag, hy + gdefs, cex_builder=cex_builder, nice=nice, timeout_ms=20000)
+        pr2.facts.update(pr.facts)
+        ok = pr2.have(f"lemma.decompose/{ptag}", N == a_ * a_ + b_ * b_, by=gdefs, use=frame, backends=("gb",), optional=True)
+        ok = ok and pr2.have(f"lemma.n3sq/{ptag}", n3 * n3 == N, backends=("z3", "gb"), timeout_ms=5000, optional=True)
+        ok = ok and pr2.have(f"lemma.ne_sq/{ptag}", ne * ne == spec.norm2(e), backends=("z3",), timeout_ms=5000, optional=True)
+        ok = ok and pr2.have(f"lemma.r1_sq/{ptag}", r1 * r1 == spec.norm2(d), backends=("z3",), timeout_ms=5000, optional=True)
+        tol2 = z3.RealVal(k_aux.Q_NORMAL_TOL2)
+        ok = ok and pr2.have(f"lemma.sq_mono/{ptag}", n3 * n3 <= tol2 * ne * ne,
+                             by=list(ctx.pc) + [n3 >= 0, ne >= 0], backends=("z3", "nlsat"), timeout_ms=10000, optional=True)
+        if ok:
+            EE = z3.Real("ghost_ee")
+            if n_norm not in done and pr2.have(
+                    n_norm, b_ * b_ <= tol2 * EE, by=[EE == ne * ne],
+                    use=[f"lemma.decompose/{ptag}", f"lemma.n3sq/{ptag}", f"lemma.sq_mono/{ptag}"],
+                    backends=("z3", "nlsat"), timeout_ms=10000, optional=True):
+                # restate on the contract's own terms
+                if pr2.have(n_norm + "#restated", k_norm.z3(), by=gdefs + [EE == ne * ne],
+                            use=[n_norm, f"lemma.ne_sq/{ptag}"], backends=("z3",), timeout_ms=10000, optional=True):
+                    done.add(n_norm)
+            # the guard of the generic clauses is false here: |d x e|^2 = r1^2 n3^2 <= tol^2 |d|^2 |e|^2
+            small = core.hyps_over(hy + gdefs, [r1] + [x for x in v1 if z3.is_const(x)] + [N])
+            if pr2.have(f"lemma.dxe_sq/{ptag}", spec.norm2(dxe) == r1 * r1 * N, by=small, backends=("gb",), optional=True):
+                X, D2, E2, A = z3.Real("ghost_dxe2"), z3.Real("ghost_dd"), z3.Real("ghost_ee2"), z3.Real("ghost_n3n3")
+                gd2 = [X == spec.norm2(dxe), D2 == spec.norm2(d), E2 == spec.norm2(e), A == n3 * n3]
+                pr3 = Proof(tag, pr2.hyps + gd2, cex_builder=cex_builder, nice=nice, timeout_ms=20000)
+                pr3.facts.update(pr2.facts)
+                g2 = z3.RealVal(k_aux.Q_GENERIC_SIN2)
+                okg = pr3.have(f"lemma.ghost_X/{ptag}", X == D2 * A, by=gd2,
+                               use=[f"lemma.dxe_sq/{ptag}", f"lemma.n3sq/{ptag}", f"lemma.r1_sq/{ptag}"],
+                               backends=("z3", "gb"), timeout_ms=10000, optional=True)
+                okg = okg and pr3.have(f"lemma.ghost_A/{ptag}", A <= tol2 * E2, by=gd2,
+                                       use=[f"lemma.sq_mono/{ptag}", f"lemma.ne_sq/{ptag}"],
+                                       backends=("z3",), timeout_ms=10000, optional=True)
+                okg = okg and pr3.have(f"lemma.ghost_D2_nonneg/{ptag}", D2 >= 0, by=gd2, backends=("z3",),
+                                       timeout_ms=10000, optional=True)
+                okg = okg and pr3.have(f"lemma.ghost_bound/{ptag}", X <= g2 * D2 * E2, by=[],
+                                       use=[f"lemma.ghost_X/{ptag}", f"lemma.ghost_A/{ptag}", f"lemma.ghost_D2_nonneg/{ptag}"],
+                                       backends=("z3", "nlsat"), timeout_ms=10000, optional=True)
+                okg = okg and pr3.have(f"lemma.guard_false/{ptag}", z3.Not(guard.z3()), by=gd2,
+                                       use=[f"lemma.ghost_bound/{ptag}"], backends=("z3",), timeout_ms=10000, optional=True)
+                pr2.obs += pr3.obs
+                pr2.facts.update({k_: v_ for k_, v_ in pr3.facts.items() if k_.startswith("lemma.guard_false")})
+                if okg:
+                    for nmx, gx in ((n_par, g_par), (n_dir, g_dir)):
+                        if nmx not in done and pr2.have(nmx, z3.Implies(guard.z3(), gx), by=[],
+                                                        use=[f"lemma.guard_false/{ptag}"], backends=("z3",), optional=True):
+                            done.add(nmx)
+        pr.obs += pr2.obs
+    # ---- whatever is still open: plain attempt on the full hypothesis set (gives the verdict / counter-model)
+    for nmx, gx in ((n_norm, k_norm.z3()), (n_par, z3.Implies(guard.z3(), g_par)), (n_dir, z3.Implies(guard.z3(), g_dir))):
+        if nmx not in done:
+            pr.have(nmx, gx, backends=("z3", "nlsat"), timeout_ms=30000)
+    return pr
+
+
 def task_cb_path(k, seed):
     paths = _cb_paths()
     if k >= len(paths):
@@ -291,38 +409,8 @@ def task_cb_path(k, seed):
     for i, (name, cond, h) in enumerate(p.ctx.safety):
         out.append(discharge(f"{tag}/safety.{name}#{i}/{ptag}", h, cond, backends=("z3", "nlsat"),
                              cex_builder=_cex_cb, nice=nice, timeout_ms=20000))
-    cl = k_aux.calcule_base_post(P[0], P[1], P[2], v1, v2, v3, origin, after[0], after[1], after[2], True)
-    groups = {}
-    for c_ in cl:
-        groups.setdefault(c_.name.split("[")[0], []).append(c_)
-    pr = Proof(tag, hy, cex_builder=_cex_cb, nice=nice, timeout_ms=20000)
-    frame_names = []
-    for gname, ks in groups.items():
-        if gname == "v3_normal_p0p1":
-            continue
-        nm = f"ensures.{gname}/{ptag}"
-        eq_only = all(k_.rel == "eq" for k_ in ks)
-        pr.have(nm, spec.conj(ks), backends=("z3", "gb") if eq_only else ("z3", "nlsat"))
-        frame_names.append(nm)
-    # |v3.e|^2 <= tol^2 |e|^2 : staged through the orthonormal-frame facts
-    e = spec.sub(P[1], P[0])
-    d = spec.sub(P[2], P[0])
-    k_norm = groups["v3_normal_p0p1"][0]
-    nm = f"ensures.v3_normal_p0p1/{ptag}"
-    if not pr.have(nm, k_norm.z3(), backends=("z3",), timeout_ms=8000):
-        pr.obs.pop()
-        v1xe = spec.cross(v1, e)
-        pr.have(f"lemma.decompose/{ptag}",
-                spec.norm2(v1xe) == spec.dot(v2, e) * spec.dot(v2, e) + spec.dot(v3, e) * spec.dot(v3, e),
-                by=[], use=frame_names, backends=("gb",))
-        pr.have(nm, k_norm.z3(), backends=("z3", "nlsat"), timeout_ms=30000)
-    guard, gcl = k_aux.calcule_base_generic(P[0], P[1], P[2], v3, True)
-    gg = {}
-    for c_ in gcl:
-        gg.setdefault(c_.name.split("[")[0], []).append(c_)
-    for gname, ks in gg.items():
-        pr.have(f"ensures.{gname}/{ptag}", z3.Implies(guard.z3(), spec.conj(ks)), backends=("z3", "nlsat"),
-                timeout_ms=30000)
+    pr = calcule_base_script(tag, ptag, p.ctx, hy, P[0], P[1], P[2], v1, v2, v3, origin, after,
+                             cex_builder=_cex_cb, nice=nice)
     out += pr.obs
     # guards
     out.append(core.must_fail(f"{tag}/guard.must-fail/{ptag}", hy, spec.conj(spec.eqs("lh", spec.cross(v2, v1), v3))))
